@@ -923,10 +923,239 @@ def sign_leg(res, rng, n):
                 ld.close()
 
 
+def order_leg(res, rng, n):
+    """value structures whose members carry explicit byte orders (network
+    headers kept in a table): the program copies one member of the entry
+    found into another - directly, or through the Dict's staging value and
+    update() - and Python reads the entry back.  The values fit both
+    members."""
+    for _ in range(n):
+        letters = [rng.choice(FM) for _ in range(rng.randint(2, 5))]
+        letters.sort(key=lambda f: -struct.calcsize(f))
+        fmts = [rng.choice(["", "<", ">", "!", ">", "!"]) + f
+                for f in letters]
+        pairs = []
+        for _ in range(4):
+            a, b = rng.sample(range(len(fmts)), 2)
+            pairs.append((a, b, rng.choice(["entry", "staged"])))
+        Key = type("OKey", (Structure,), {"k0": Member("I")})
+        Value = type("OValue", (Structure,),
+                     {f"v{i}": Member(f) for i, f in enumerate(fmts)})
+        m = ArrayMap()
+        ns = {"license": "GPL", "m": m, "op": m.globalVar("I"),
+              "found": m.globalVar("B"),
+              "d": Dict(key=Key, value=Value, size=8)}
+
+        def program(self):
+            e = self
+            e.d.key.k0 = 5
+            for j, (a, b, how) in enumerate(pairs):
+                with e.op == j + 1:
+                    with e.d.lookup() as (value, Else):
+                        e.found = 1
+                        if how == "entry":
+                            setattr(value, f"v{b}", getattr(value, f"v{a}"))
+                        else:
+                            for i in range(len(fmts)):
+                                setattr(e.d.value, f"v{i}",
+                                        getattr(value, f"v{a if i == b else i}"))
+                            e.d.update()
+                    e.r0 = 2
+                    e.exit()
+            e.r0 = 2
+            e.exit()
+        ns["program"] = program
+        desc = dict(order_leg=True, fmts=fmts, pairs=pairs)
+        with kern.session() as sess:
+            try:
+                e = type("VfOrder", (XDP,), ns)()
+                ld = prog.Loaded(e, sess)
+                ld.load()
+            except (OSError, AssembleError) as ex:
+                res.violation("unexplained:byte-order-members-not-loaded",
+                              f"{type(ex).__name__}: {str(ex)[-300:]}",
+                              case=desc)
+                continue
+            try:
+                for j, (a, b, how) in enumerate(pairs):
+                    def rng_of(f):
+                        bits = 8 * struct.calcsize(f[-1])
+                        return (-(1 << (bits - 1)), (1 << (bits - 1)) - 1) \
+                            if f[-1].islower() else (0, (1 << bits) - 1)
+                    vals = []
+                    for i, f in enumerate(fmts):
+                        lo, hi = rng_of(f)
+                        if i == a:
+                            lo2, hi2 = rng_of(fmts[b])
+                            lo, hi = max(lo, lo2), min(hi, hi2)
+                        vals.append(rng.choice([lo, hi, rng.randint(lo, hi),
+                                                rng.randint(lo, hi), 0x50]
+                                               if lo <= 0x50 <= hi else
+                                               [lo, hi, rng.randint(lo, hi)]))
+                    k = Key()
+                    k.k0 = 5
+                    v = Value()
+                    for i, x in enumerate(vals):
+                        setattr(v, f"v{i}", x)
+                    e.d[k] = v
+                    e.op = j + 1
+                    e.found = 0
+                    ld.run_k(bytes(64))
+                    got_o = e.d[k]
+                    got = [getattr(got_o, f"v{i}") for i in range(len(fmts))]
+                    want = list(vals)
+                    want[b] = vals[a]
+                    res.case([desc, j, vals], nontrivial=True)
+                    res.count("byte_order_member_copies")
+                    res.count(f"byte_order_member_copies[{how}]")
+                    if e.found != 1 or got != want:
+                        res.violation(
+                            "unexplained:byte-order-member-copy",
+                            f"members {fmts} held {vals}; the program "
+                            f"copied v{a} into v{b} ({how}); Python reads "
+                            f"{got} (entry found: {e.found})", case=desc)
+                        break
+            finally:
+                ld.close()
+
+
+def interleave_leg(res, rng, n):
+    """the program runs whenever it likes - also between two bpf() calls of
+    one Python-side Dict operation.  The monitor sits on the library's bpf()
+    wrapper: before every map command after the first one of a Python
+    operation it runs the program once (a packet arriving just then).  The
+    program counts into the entry (or inserts it with count 1), Python pops
+    and reads entries; nothing the program counted may get lost: the counts
+    popped plus the counts left in the map equal the number of runs."""
+    import ebpfcat.bpf as bpfmod
+    for _ in range(n):
+        Key = type("IKey", (Structure,), {"k0": Member("I")})
+        Value = type("IValue", (Structure,),
+                     {"cnt": Member("Q"), "last": Member("Q")})
+        m = ArrayMap()
+        ns = {"license": "GPL", "m": m, "ik": m.globalVar("I"),
+              "found": m.globalVar("I"), "missed": m.globalVar("I"),
+              "d": Dict(key=Key, value=Value, size=8)}
+
+        def program(self):
+            e = self
+            e.d.key.k0 = e.ik
+            with e.d.lookup() as (value, Else):
+                value.cnt += 1
+                e.found += 1
+            with Else:
+                e.d.value.cnt = 1
+                e.d.value.last = 0
+                e.d.update()
+                e.missed += 1
+            e.r0 = 2
+            e.exit()
+        ns["program"] = program
+        desc = dict(interleave_leg=True)
+        with kern.session() as sess:
+            try:
+                e = type("VfInter", (XDP,), ns)()
+                ld = prog.Loaded(e, sess)
+                ld.load()
+            except (OSError, AssembleError) as ex:
+                res.violation("unexplained:interleave-leg-not-loaded",
+                              f"{type(ex).__name__}: {str(ex)[-300:]}",
+                              case=desc)
+                continue
+            st = dict(op=None, nsys=0, runs=0, injected=0, multi=0)
+            orig = bpfmod.bpf
+
+            def run_prog(k):
+                e.ik = k
+                ld.run_k(bytes(64))
+                st["runs"] += 1
+
+            def hooked(cmd, fmt, *args):
+                if st["op"] is not None and cmd in (1, 2, 3, 21):
+                    if st["nsys"] >= 1:
+                        run_prog(st["op"])
+                        st["injected"] += 1
+                    st["nsys"] += 1
+                return orig(cmd, fmt, *args)
+
+            def key(k):
+                o = Key()
+                o.k0 = k
+                return o
+            keys = [rng.getrandbits(31) for _ in range(2)]
+            log = []
+            bpfmod.bpf = hooked
+            try:
+                total = 0
+                for step in range(rng.randint(10, 30)):
+                    for _ in range(rng.randint(0, 3)):
+                        run_prog(rng.choice(keys))
+                    k = rng.choice(keys)
+                    op = rng.choice(["pop", "pop", "pop_default", "get"])
+                    st["op"], st["nsys"] = k, 0
+                    try:
+                        if op == "pop":
+                            try:
+                                v = e.d.pop(key(k))
+                            except KeyError:
+                                v = None
+                        elif op == "pop_default":
+                            v = e.d.pop(key(k), None)
+                        else:
+                            try:
+                                e.d[key(k)]
+                            except KeyError:
+                                pass
+                            v = None
+                    finally:
+                        st["op"] = None
+                    if st["nsys"] > 1:
+                        st["multi"] += 1
+                    res.count("interleave_python_operations")
+                    if v is not None:
+                        total += v.cnt
+                        log.append((op, k, v.cnt))
+                    else:
+                        log.append((op, k, None))
+                left = 0
+                for k in keys:
+                    try:
+                        left += e.d[key(k)].cnt
+                    except KeyError:
+                        pass
+            finally:
+                bpfmod.bpf = orig
+                ld.close()
+            res.case([desc, log], nontrivial=True)
+            res.count("interleave_program_runs", st["runs"])
+            res.count("interleave_runs_between_two_calls_of_one_operation",
+                      st["injected"])
+            res.count("interleave_operations_issuing_several_map_commands",
+                      st["multi"])
+            if e.found + e.missed != st["runs"]:
+                res.inconc("interleave leg: the program's own counters do "
+                           "not add up to its runs")
+                continue
+            if total + left != st["runs"]:
+                res.violation(
+                    "unexplained:program-update-lost-inside-a-python-"
+                    "operation",
+                    f"the program ran {st['runs']} times ({st['injected']} "
+                    f"of them between two map commands of one Python "
+                    f"operation), each run counting 1 into its entry; the "
+                    f"counts popped ({total}) and left in the map ({left}) "
+                    f"add up to {total + left}", case=desc,
+                    witness=log[-12:])
+
+
 def run_shard(params):
     res = Result()
     rng = random.Random(params["seed"] * 100109 + params["shard"])
     sign_leg(res, random.Random(rng.getrandbits(32)), 6)
+    interleave_leg(res, random.Random(rng.getrandbits(32)),
+                   6 if params["nd"] <= 100 else 20)
+    order_leg(res, random.Random(rng.getrandbits(32)),
+              6 if params["nd"] <= 100 else 20)
     for i in range(params["nh"]):
         case = gen_hash_case(rng)
         try:
